@@ -3805,3 +3805,43 @@ def d_nosuch( ctx ):
         res.bad( src, looks[0], 'Message_Router.route: %s = lookup( ... ) is returned as it is' % T,
                  'lookup answers None for an Object that does not exist, and route() answers None for "the path names me": a Multiple Service Packet addressed to @0x99/1 or @2/7 is executed by the Message Router itself ( status 0x00, its Write Tag applied ) instead of being refused with 0x16 like one addressed to an unknown tag' )
     return res
+
+
+@rule( 'S-PHASE', props=( 'C03', 'C04', 'C05', 'C07' ), floor=4 )
+def s_phase( ctx ):
+    """a request handler turns the request into the reply in place: `data.service |= 0x80`.  Behind that statement ( on the CFG: dominated
+    by it ) the service is a REPLY code: a test `data.service == self.<X>_REQ` there is never true - whatever it guards ( a validation
+    assert, say the refusal of a byte offset inside an element ) is dead code and the request it should refuse is served.  Comparisons
+    of data.service behind the reply bit are examined in Object / Message_Router / Logix / Connection_Manager .request."""
+    res = Result( 'S-PHASE' )
+    for rel, qn in (( DEVICE, 'Object.request' ), ( DEVICE, 'Message_Router.request' ), ( LOGIX, 'Logix.request' ), ( DEVICE, 'Connection_Manager.request' )):
+        src = ctx.src( rel )
+        fn = src.get( qn )
+        DATA = fn.args.args[1].arg
+        cfg = CFG( fn )
+        sets = [ n for n in cfg.nodes if n.kind == 'stmt' and isinstance( n.stmt, ast.AugAssign ) and isinstance( n.stmt.op, ast.BitOr ) and dotted( n.stmt.target ) == DATA + '.service' and try_fold( n.stmt.value ) == 0x80 ]
+        if not sets:
+            res.ok( src, fn, '%s: no in-place reply bit on %s.service' % ( qn, DATA ), nontrivial=False )
+            continue
+        dom = cfg.dominators()
+        dead = []
+        seen = 0
+        for n in cfg.nodes:
+            own = n.own()
+            if own is None or n in sets:
+                continue
+            for c in ast.walk( own ):
+                if isinstance( c, ast.Compare ) and any( dotted( x ) == DATA + '.service' for x in [ c.left ] + c.comparators ):
+                    consts = [ dotted( x ) or '' for x in [ c.left ] + c.comparators for x in ( x.elts if isinstance( x, ( ast.Tuple, ast.List, ast.Set )) else [ x ] ) ]
+                    if any( cfg.dominates( s_, n, dom ) for s_ in sets ):
+                        seen += 1
+                        reqs = [ k for k in consts if k.endswith( '_REQ' ) ]
+                        if reqs:
+                            dead.append(( n, c, reqs ))
+        if dead:
+            n, c, reqs = dead[0]
+            res.bad( src, c, '%s: %s is tested behind %s.service |= 0x80' % ( qn, norm_text( ast.unparse( c ))[:70], DATA ),
+                     'the service is a reply code by then: the test against %s is never true and what it guards never runs ( e.g. the refusal of a Read Tag Fragmented offset inside an element: the continuation of a string array is answered, with success, from the wrong element )' % ', '.join( reqs ), func=qn )
+        else:
+            res.ok( src, sets[0].stmt, '%s: %d comparisons of %s.service behind the reply bit, none against a request code' % ( qn, seen, DATA ))
+    return res
